@@ -156,15 +156,17 @@ fn wide_part(run: &Run) -> Value {
     use yui_link::Crossing;
     let th = run.thorough();
     // closures of 3-braids with 8 letters: an alternating word, a torus-like word, mixed ones
+    // thorough: 2 deviations on the 6-letter words (<= 20 pairs per call), 1 deviation on the 7- and
+    // 8-letter words (35 and 70 pairs per call); an execution costs 10-100 ms there
     let words: Vec<Vec<i32>> = if th {
-        vec![vec![1, -2, 1, -2, 1, -2, 1], vec![1, 2, 1, 2, 1, 2, 1], vec![1, 1, -2, 1, -2, -2, 1], vec![1, 2, -1, 2, 1, -2, 1], vec![1, -2, 1, -2, 1, -2, 1, -2]]
+        vec![vec![1, -2, 1, -2, 1, -2, 1], vec![1, 2, 1, 2, 1, 2, 1], vec![1, 1, -2, 1, -2, -2, 1], vec![1, 2, -1, 2, 1, -2, 1], vec![1, -2, 1, -2, 1, -2, 1, -2], vec![1, -2, 1, -2, 1, -2], vec![1, 2, 1, 2, 1, 2]]
     } else {
         vec![vec![1, -2, 1, -2, 1, -2, 1], vec![1, 2, 1, 2, 1, 2, 1]]
     };
-    let bound = if th { 2 } else { 1 };
     let out = std::sync::Mutex::new(vec![]);
     run.par_for(words.len(), |wi| {
         let w = &words[wi];
+        let bound = if th && w.len() <= 6 { 2 } else { 1 };
         let d = vcore::reflink::braid_closure(3, w).expect("closure");
         let link = to_link(&d);
         let (h, t) = if wi % 2 == 0 { (0i64, 0i64) } else { (1, 0) };
@@ -204,6 +206,10 @@ fn wide_part(run: &Run) -> Value {
                         Some((desc, total_table(&KhHomology::from(&c))))
                     })
                 });
+                if run.over_budget() {
+                    run.cap("part 3 (wide calls): wall budget reached");
+                    return false;
+                }
                 max_items = max_items.max(tr.max_items);
                 if !two_writers {
                     let ws: BTreeSet<u8> = tr.labels.iter().filter(|l| l.1 == "rwlock.write").map(|l| l.0).collect();
@@ -238,14 +244,14 @@ fn wide_part(run: &Run) -> Value {
                 }
             },
         );
-        if !st.complete && run.nviolations() == 0 {
+        if !st.complete && run.nviolations() == 0 && !run.over_budget() {
             run.cap("part 3 (wide calls): execution cap hit");
         }
-        out.lock().unwrap().push(json!({"braid_word": w, "h": h, "t": t, "largest_parallel_call": max_items, "executions": st.executions, "complete_below_bound": st.complete,
+        out.lock().unwrap().push(json!({"braid_word": w, "deviation_bound": bound, "h": h, "t": t, "largest_parallel_call": max_items, "executions": st.executions, "complete_below_bound": st.complete,
                                         "two_workers_take_the_write_lock": two_writers, "distinct_complexes_judged": judged_ok.len(), "lock_points_passed": st.points}));
     });
     let v = out.into_inner().unwrap();
-    json!({"rule": "TngComplexBuilder with auto_deloop = auto_elim = false on closures of 3-braids with 7 letters (thorough: also 8; 2^k vertices after k crossings); deviations = preemptions + hand-overs at task ends", "deviation_bound": bound, "problems": v})
+    json!({"rule": "TngComplexBuilder with auto_deloop = auto_elim = false on closures of 3-braids with 7 letters (thorough: also 8; 2^k vertices after k crossings); deviations = preemptions + hand-overs at task ends", "deviation_bound": "1 (thorough: 2 on the 6-letter words)", "problems": v})
 }
 
 /// The non-default elimination schedule under threads: the builder with `auto_elim = false` hands an
@@ -259,12 +265,16 @@ fn noelim_part(run: &Run) -> Value {
     use yui_link::Crossing;
     let th = run.thorough();
     let env_names: Option<Vec<String>> = std::env::var("VERIF_C01_NOELIM").ok().map(|s| s.split(',').map(|x| x.to_string()).collect());
-    let default_names: &[&str] = if th { &["3_1", "4_1", "5_1", "5_2", "6_1", "6_2", "6_3"] } else { &["3_1", "4_1", "5_2"] };
+    let default_names: &[&str] = if th { &["3_1", "4_1", "5_1", "5_2", "6_1", "6_2", "6_3", "7_4", "7_7"] } else { &["3_1", "4_1", "5_2"] };
     let names: Vec<String> = env_names.unwrap_or_else(|| default_names.iter().map(|s| s.to_string()).collect());
     let params: &[(i64, i64)] = &[(3, 1), (1, 2)];
     let jobs: Vec<(usize, usize)> = (0..names.len()).flat_map(|a| (0..params.len()).map(move |b| (a, b))).collect();
     let out = std::sync::Mutex::new(vec![]);
     run.par_for(jobs.len(), |ji| {
+        if run.over_budget() {
+            run.cap("part 3 (no-elimination route): wall budget reached");
+            return;
+        }
         let (ni, pi) = jobs[ji];
         let (h, t) = params[pi];
         let link = yui_link::Link::load(&names[ni]).expect("table knot");
@@ -291,6 +301,10 @@ fn noelim_part(run: &Run) -> Value {
             if tr.diverged.is_some() {
                 run.add("sched_prefixes_not_replayable", 1);
             }
+            if run.over_budget() {
+                run.cap("part 3 (no-elimination route): wall budget reached");
+                return false;
+            }
             let detail = || json!({"knot": names[ni], "h": h, "t": t, "builder": "auto_elim = false", "schedule": tr.choices(), "deviations": tr.preemptions()});
             match (&tr.abort, r) {
                 (Some(ab), _) => {
@@ -311,7 +325,7 @@ fn noelim_part(run: &Run) -> Value {
                 }
             }
         });
-        if !st.complete && run.nviolations() == 0 {
+        if !st.complete && run.nviolations() == 0 && !run.over_budget() {
             run.cap("part 3 (no-elimination route): execution cap hit");
         }
         out.lock().unwrap().push(json!({"knot": names[ni], "h": h, "t": t, "executions": st.executions, "complete_below_bound": st.complete, "two_workers_write_the_pivot_table": two_writers,
